@@ -2,6 +2,8 @@
 
 package packet
 
+import "net/netip"
+
 // Contracts for package packet, checked by /verif/govc (build tag verif).
 
 // ---------- reference decoders (written from the RFCs) ----------
@@ -229,15 +231,226 @@ func spec_frame_wf(f Frame, p []byte) bool {
 		(f.offsetIP4 == 0 || spec_valid_ip4(IP4(p[f.offsetIP4:]))) &&
 		(f.offsetIP6 == 0 || len(p)-f.offsetIP6 >= 40) &&
 		(f.offsetUDP == 0 || len(p)-f.offsetUDP >= 8) &&
-		(f.offsetTCP == 0 || len(p)-f.offsetTCP >= 20)
+		(f.offsetTCP == 0 || spec_valid_tcp(TCP(p[f.offsetTCP:])))
 }
 
-//verif:props C01 C16
+func spec_valid_tcp(p TCP) bool {
+	return len(p) >= 20 && 4*int(p[12]>>4) >= 20 && 4*int(p[12]>>4) <= len(p)
+}
+
+// specFrame is what the reference classifier computes for a frame.
+type specFrame struct {
+	id                          PayloadID
+	ip4, ip6, udp, tcp, payload int
+	srcIP, dstIP                netip.Addr
+	sport, dport                uint16
+	mustErr                     bool // a mandatory header on the selected path is truncated or inconsistent
+	mayErr                      bool // either reading of the statement is acceptable (IPv6 trailing bytes)
+}
+
+func spec_udp_class(sport, dport uint16) PayloadID {
+	switch {
+	case sport == 443 || dport == 443:
+		return PayloadSSL
+	case dport == 67 || dport == 68:
+		return PayloadDHCP4
+	case dport == 546 || dport == 547:
+		return PayloadDHCP6
+	case sport == 53 || dport == 53:
+		return PayloadDNS
+	case sport == 5353 || dport == 5353:
+		return PayloadMDNS
+	case sport == 5355 || dport == 5355:
+		return PayloadLLMNR
+	case sport == 123 || dport == 123:
+		return PayloadNTP
+	case sport == 1900 || dport == 1900:
+		return PayloadSSDP
+	case sport == 3702 || dport == 3702:
+		return PayloadWSDP
+	case dport == 137 || dport == 138:
+		return PayloadNBNS
+	case dport == 32412 || dport == 32414:
+		return PayloadPlex
+	case sport == 10001 || dport == 10001:
+		return PayloadUbiquiti
+	}
+	return PayloadUDP
+}
+
+// spec_parse: the documented EtherType / IP protocol / UDP port classification.
+func spec_parse(p []byte) specFrame {
+	var f specFrame
+	if len(p) < 14 {
+		f.mustErr = true
+		return f
+	}
+	et := spec_be16(p, 12)
+	hl := 14
+	if et == 0x8100 {
+		hl = 18
+	} else if et == 0x88a8 {
+		hl = 22
+	}
+	if len(p) < hl {
+		f.mustErr = true
+		return f
+	}
+	f.id = PayloadEther
+	f.payload = hl
+	if p[6]&0x01 != 0 { // only unicast sources are classified
+		return f
+	}
+	if et < 1536 {
+		f.id = Payload8023
+		return f
+	}
+	var proto uint8
+	switch et {
+	case 0x0800:
+		f.id = PayloadIP4
+		ip := p[14:]
+		if !spec_valid_ip4(ip) {
+			f.mustErr = true
+			return f
+		}
+		f.ip4 = 14
+		f.payload = 14 + 4*int(ip[0]&0x0f)
+		proto = ip[9]
+		f.srcIP, f.dstIP = spec_ip4_at(ip, 12), spec_ip4_at(ip, 16)
+	case 0x86dd:
+		f.id = PayloadIP6
+		ip := p[14:]
+		if len(ip) < 40 || int(spec_be16(ip, 4))+40 > len(ip) {
+			f.mustErr = true
+			return f
+		}
+		if int(spec_be16(ip, 4))+40 < len(ip) {
+			// trailing bytes after the IPv6 payload: "length-inconsistent" may or may not cover it
+			f.mayErr = true
+		}
+		f.ip6 = 14
+		f.payload = 54
+		proto = ip[6]
+		f.srcIP, f.dstIP = spec_ip6_at(ip, 8), spec_ip6_at(ip, 24)
+	case 0x0806:
+		f.id = PayloadARP
+		if len(p)-14 < 28 || p[14+4] != 6 {
+			f.mustErr = true
+		}
+		return f
+	case 0x8808:
+		f.id = PayloadEthernetPause
+		return f
+	case 0x8899:
+		f.id = PayloadRRCP
+		return f
+	case 0x88cc:
+		f.id = PayloadLLDP
+		return f
+	case 0x890d:
+		f.id = Payload802_11r
+		return f
+	case 0x893a:
+		f.id = PayloadIEEE1905
+		return f
+	case 0x6970:
+		f.id = PayloadSonos
+		return f
+	case 0x880a:
+		f.id = Payload880a
+		return f
+	default:
+		return f
+	}
+	l4 := p[f.payload:]
+	switch proto {
+	case 17:
+		f.id = PayloadUDP
+		if len(l4) < 8 {
+			f.mustErr = true
+			return f
+		}
+		f.udp = f.payload
+		f.sport, f.dport = spec_be16(l4, 0), spec_be16(l4, 2)
+		f.id = spec_udp_class(f.sport, f.dport)
+		if f.id != PayloadUDP {
+			f.payload += 8
+		}
+	case 6:
+		f.id = PayloadTCP
+		if !spec_valid_tcp(l4) {
+			f.mustErr = true
+			return f
+		}
+		f.tcp = f.payload
+		f.sport, f.dport = spec_be16(l4, 0), spec_be16(l4, 2)
+	case 1:
+		if len(l4) < 8 {
+			f.mustErr = true
+			return f
+		}
+		f.id = PayloadICMP4
+	case 58:
+		if len(l4) < 8 {
+			f.mustErr = true
+			return f
+		}
+		f.id = PayloadICMP6
+	case 2:
+		f.id = PayloadIGMP
+	}
+	return f
+}
+
+// Parse classifies exactly as the reference decoder and errs exactly when a
+// mandatory header on the selected path is truncated or inconsistent.
+//
+//verif:props C02
+func verif_lemma_parse_refines_spec(h *Session, p []byte) {
+	vRequires(spec_session_wf(h))
+	s := spec_parse(p)
+	frame, err := h.Parse(p)
+	vCanary()
+	vAssert(!s.mustErr || err != nil)
+	vAssert(err == nil || s.mustErr || s.mayErr)
+	if err == nil {
+		vAssert(frame.PayloadID == s.id)
+		vAssert(frame.offsetIP4 == s.ip4 && frame.offsetIP6 == s.ip6)
+		vAssert(frame.offsetUDP == s.udp && frame.offsetTCP == s.tcp)
+		vAssert(frame.offsetPayload == s.payload)
+		vAssert(frame.SrcAddr.IP == s.srcIP && frame.DstAddr.IP == s.dstIP)
+		vAssert(frame.SrcAddr.Port == s.sport && frame.DstAddr.Port == s.dport)
+	}
+}
+
+//verif:props C01 C02 C16
 func verif_contract_Session_Parse(h *Session, p []byte) (Frame, error) {
 	vRequires(spec_session_wf(h))
 	vStrictLen()
 	vModifiesHeap()
+	s := spec_parse(p)
 	frame, err := h.Parse(p)
+	vEnsures(!s.mustErr || err != nil)
+	vEnsures(err == nil || s.mustErr || s.mayErr)
+	if err == nil {
+		vEnsures(frame.PayloadID == s.id)
+		vEnsures(frame.offsetIP4 == s.ip4 && frame.offsetIP6 == s.ip6)
+		vEnsures(frame.offsetUDP == s.udp && frame.offsetTCP == s.tcp)
+		vEnsures(frame.offsetPayload == s.payload)
+		// the same two facts, split by EtherType to keep each query small
+		switch spec_be16(p, 12) {
+		case 0x0800:
+			vEnsures(frame.SrcAddr.IP == s.srcIP && frame.DstAddr.IP == s.dstIP)
+			vEnsures(frame.SrcAddr.Port == s.sport && frame.DstAddr.Port == s.dport)
+		case 0x86dd:
+			vEnsures(frame.SrcAddr.IP == s.srcIP && frame.DstAddr.IP == s.dstIP)
+			vEnsures(frame.SrcAddr.Port == s.sport && frame.DstAddr.Port == s.dport)
+		default:
+			vEnsures(frame.SrcAddr.IP == s.srcIP && frame.DstAddr.IP == s.dstIP)
+			vEnsures(frame.SrcAddr.Port == s.sport && frame.DstAddr.Port == s.dport)
+		}
+	}
 	if err == nil {
 		vEnsures(len(p) >= 14)
 		vEnsures(spec_frame_wf(frame, p))
